@@ -10,7 +10,8 @@
   whenever every grow passes the decidable lock-discipline check `ReadsUnderLock` and is sequentially
   correct (`SeqCorrect`).
   Part 2 (the proposed repair `repairedSteps`): both hypotheses are discharged, all theorems apply.
-  Part 3 (the regenerated `Gen.growSteps`): statements that are proved on the pinned tree by the
+  Part 3 (the regenerated `Gen.growSteps` / `Gen.sizeSteps`; current tree: `grow_linearizable_current`, `grow_race_free`
+  incl. memory.size threads, which take the lock since /repo ee826ee): statements that are proved on the pinned tree by the
   counterexample branch and, once /repo is repaired, by the discipline branch (`first | … | …`), so this
   file keeps building across the fix; the C18 check reads off which branch holds (driver `gstatus`).
 -/
@@ -110,10 +111,11 @@ theorem grow_distinct_old_sizes (cfg : Cfg) (p0 : Nat) (hp : p0 ≤ cfg.imm.maxP
   rw [h1, h3]
   omega
 
-/-- **No data race** between grows, and between grows and data accesses (operations that read only
-    `data`/`maxPages`/`shared`).  `_partial`: `memory.size` (a plain read of `pages`) is excluded by
-    `hro` — see `size_query_race_counterexample`. -/
-theorem grow_race_free_partial (cfg : Cfg) (m0 : Mem) (wf : WF cfg m0)
+/-- **No data race**, general form: if every linearized operation (`isGrow`: grows, and size queries that take the
+    lock) obeys the lock discipline and the remaining operations never read `pages`/`size` (`hro`; e.g. loads
+    and stores, which read only `data`), no two threads are ever poised at conflicting descriptor accesses.
+    `hro` is necessary: `unlocked_size_read_would_race`.  Instantiated for the current tree in `grow_race_free`. -/
+theorem grow_race_free_of_discipline (cfg : Cfg) (m0 : Mem) (wf : WF cfg m0)
     (hro : ∀ t, cfg.isGrow t = false → NoSizeRead (cfg.prog t) = true)
     (s : Sh × (Tid → Loc)) (hr : Reachable cfg m0 s) : ¬ Race cfg s :=
   no_race_of_ginv wf hro (ginv_reach wf hr)
@@ -161,26 +163,6 @@ theorem grow_linearizable_repaired (cfg : Cfg) (m0 : Mem) (hs : cfg.imm.shared =
     ⟨hs, h0, fun t ht => by rw [(hg t ht).1]; exact repaired_reads_under_lock,
       fun t ht => by rw [(hg t ht).1]; exact repaired_seq_correct cfg.imm hs hmax _ (hg t ht).2, hr⟩
   exact ⟨wf, fun s h => grow_linearizable cfg m0 wf s h⟩
-
-/-- three repaired grows (deltas 1, 2, 3) next to a `memory.size` (thread 3) and loads (all others) -/
-def exampleCfg : Cfg :=
-  { imm := { maxPages := 10 },
-    prog := fun t => if t < 3 then repairedSteps else if t = 3 then sizeSteps else accessSteps,
-    arg := fun t => if t < 3 then t + 1 else 0, isGrow := fun t => decide (t < 3) }
-
-/-- the hypotheses of Part 1 are satisfiable -/
-example : WF exampleCfg mem1 ∧ exampleCfg.isGrow 0 = true ∧ exampleCfg.isGrow 3 = false := by
-  refine ⟨(grow_linearizable_repaired exampleCfg mem1 rfl (by decide) (by decide) ?_ ?_).1, by decide, by decide⟩
-  · intro t ht
-    have h3 : t < 3 := of_decide_eq_true ht
-    refine ⟨if_pos h3, ?_⟩
-    show (if t < 3 then t + 1 else 0) < 4294967296
-    rw [if_pos h3]; exact Nat.lt_of_lt_of_le (Nat.succ_lt_succ h3) (by decide)
-  · intro t ht
-    have h3 : ¬ t < 3 := of_decide_eq_false ht
-    show ReadOnly (if t < 3 then repairedSteps else if t = 3 then sizeSteps else accessSteps) = true
-    rw [if_neg h3]
-    split <;> decide
 
 /-! ## Part 3 — the regenerated `Gen.growSteps` (what /repo's wasmMemoryGrow does now) -/
 
@@ -252,9 +234,10 @@ theorem gen_grow_discipline :
   | exact Or.inr (by decide)
   | exact Or.inl ⟨by decide, by seq_correct_tac Gen.growSteps⟩
 
-/-- `pages ≤ maxPages` still holds on the pinned tree in the lost-update state (the stale `newPages` was
-    checked against the maximum), and in the wrap case nothing is written. -/
-theorem size_query_race_counterexample :
+/-- Why memory.size must take the lock (DESIGN §6 #18, fixed in /repo ee826ee): with the plain read
+    `si = m->pages;` that c.c used to emit (`plainSizeSteps`) a state is reachable in which a grow is about to
+    write `pages` while the size query is about to read it — a data race. -/
+theorem unlocked_size_read_would_race :
     ∃ s, Reachable (cfgGrowSize Gen.growSteps) mem1 s ∧ Race (cfgGrowSize Gen.growSteps) s :=
   sizeRace_of_check (by decide)
 
@@ -294,21 +277,113 @@ theorem grow_linearizable_gen (cfg : Cfg) (m0 : Mem) (hs : cfg.imm.shared = true
     exact ⟨wf, fun s h => ⟨grow_linearizable cfg m0 wf s h, grow_bounds cfg m0 wf s h⟩⟩
   · exact Or.inl h
 
-/-! ### current tree (after /repo commit 07872f3): the regenerated wasmMemoryGrow passes the check.
+/-! ### current tree (after /repo commits 07872f3, ee826ee): the regenerated wasmMemoryGrow / wasmMemorySize pass the check.
    These two are the obligations a regression of the fix breaks (moving a read of `pages` out of the critical
    section makes `decide` fail; the C18 check then replays the lost-update schedule on the real header). -/
 
 theorem gen_reads_under_lock : ReadsUnderLock Gen.growSteps = true := by decide
 
-/-- `grow_linearizable` + `grow_bounds` for what /repo's wasmMemoryGrow does now, unconditionally -/
+theorem gen_seq_correct : ∀ (imm : Imm), imm.shared = true → imm.maxPages ≤ 65536 → ∀ delta, delta < 4294967296 →
+    SeqCorrect imm Gen.growSteps delta := by
+  rcases gen_grow_discipline with ⟨_, h⟩ | h
+  · exact h
+  · rw [gen_reads_under_lock] at h; cases h
+
+/-- the regenerated `wasmMemorySize` (what memory.size calls since ee826ee) reads `pages` under the lock … -/
+theorem size_reads_under_lock : ReadsUnderLock Gen.sizeSteps = true := by decide
+
+/-- … and, alone, returns the current page count and changes nothing — which is the specification of
+    `memory.grow(0)`; so a size query is handled as the linearized operation "grow by 0" -/
+theorem size_seq_correct (imm : Imm) (hs : imm.shared = true) : SeqCorrect imm Gen.sizeSteps 0 := by
+  intro m hle
+  refine ⟨m, ⟨32, ?_⟩, ?_, Or.inl rfl⟩
+  · simp [runSeq, act, Gen.sizeSteps, MExpr.eval, setReg, initRegs, readFld, hs, b2n, specGrow, hle]
+  · simp [specGrow, hle]
+
+/-- The operations of the current tree on one shared memory: the linearized ones (`isGrow`) are
+    `memory.grow(delta)` = `Gen.growSteps`, or `memory.size` = `Gen.sizeSteps` (argument slot 0); all others
+    (loads, stores, …) only read, and never `pages`/`size`. -/
+def CurrentOps (cfg : Cfg) : Prop :=
+  (∀ t, cfg.isGrow t = true →
+    (cfg.prog t = Gen.growSteps ∧ cfg.arg t < 4294967296) ∨ (cfg.prog t = Gen.sizeSteps ∧ cfg.arg t = 0)) ∧
+  (∀ t, cfg.isGrow t = false → ReadOnly (cfg.prog t) = true ∧ NoSizeRead (cfg.prog t) = true)
+
+theorem current_wf (cfg : Cfg) (m0 : Mem) (hs : cfg.imm.shared = true) (hmax : cfg.imm.maxPages ≤ 65536)
+    (h0 : m0.pages ≤ cfg.imm.maxPages) (ops : CurrentOps cfg) : WF cfg m0 := by
+  refine ⟨hs, h0, ?_, ?_, fun t ht => (ops.2 t ht).1⟩
+  · intro t ht
+    rcases ops.1 t ht with ⟨h, _⟩ | ⟨h, _⟩ <;> rw [h]
+    · exact gen_reads_under_lock
+    · exact size_reads_under_lock
+  · intro t ht
+    rcases ops.1 t ht with ⟨h, ha⟩ | ⟨h, ha⟩ <;> rw [h]
+    · exact gen_seq_correct cfg.imm hs hmax _ ha
+    · rw [ha]; exact size_seq_correct cfg.imm hs
+
+/-- **Linearizability of what /repo does now** — grows AND size queries, next to arbitrary loads/stores, any
+    number of threads, any deltas, any interleaving.  `Linearizable` ranges over all `isGrow` operations, so for
+    a size query it says: the value returned is the page count after the prefix of the grows that precede it in
+    ONE total order of all grows and size queries that is consistent with real time (a size query that starts
+    after a grow returned sees it; one that returned before a grow started does not). -/
 theorem grow_linearizable_current (cfg : Cfg) (m0 : Mem) (hs : cfg.imm.shared = true)
-    (hmax : cfg.imm.maxPages ≤ 65536) (h0 : m0.pages ≤ cfg.imm.maxPages)
-    (hg : ∀ t, cfg.isGrow t = true → cfg.prog t = Gen.growSteps ∧ cfg.arg t < 4294967296)
-    (hr : ∀ t, cfg.isGrow t = false → ReadOnly (cfg.prog t) = true) :
+    (hmax : cfg.imm.maxPages ≤ 65536) (h0 : m0.pages ≤ cfg.imm.maxPages) (ops : CurrentOps cfg) :
     ∀ s, Reachable cfg m0 s → Linearizable cfg m0 s ∧ s.1.mem.data = m0.data ∧
       (s.1.mutex = none → s.1.mem.pages ≤ cfg.imm.maxPages ∧ SizeInv m0 s.1.mem) := by
-  rcases grow_linearizable_gen cfg m0 hs hmax h0 hg hr with h | h
-  · rw [gen_reads_under_lock] at h; cases h
-  · exact h.2
+  have wf := current_wf cfg m0 hs hmax h0 ops
+  exact fun s h => ⟨grow_linearizable cfg m0 wf s h, grow_bounds cfg m0 wf s h⟩
+
+/-- a size query changes nothing and returns the size at its place in the order -/
+theorem size_query_spec (cfg : Cfg) (p0 : Nat) (older : List Tid) (t : Tid) (ha : cfg.arg t = 0)
+    (hp : p0 ≤ cfg.imm.maxPages) :
+    retOf cfg p0 older t = replay cfg p0 older ∧ replay cfg p0 (t :: older) = replay cfg p0 older := by
+  have hle := replay_le cfg hp older
+  show (specGrow cfg.imm (replay cfg p0 older) (cfg.arg t)).1 = _ ∧
+    (specGrow cfg.imm (replay cfg p0 older) (cfg.arg t)).2 = _
+  rw [ha]; simp [specGrow, hle]
+
+/-- **Race freedom of what /repo does now** (grow threads AND memory.size threads AND data accesses): in every
+    reachable state (1) no two threads are poised at conflicting accesses to a descriptor field; (2) every thread
+    about to access `pages` or `size` — read or write — holds the memory's mutex; (3) the only fields ever
+    written are `pages` and `size`: `data` (the one field loads and stores read, without the lock) is never
+    written while the memory is shared. -/
+theorem grow_race_free (cfg : Cfg) (m0 : Mem) (hs : cfg.imm.shared = true) (hmax : cfg.imm.maxPages ≤ 65536)
+    (h0 : m0.pages ≤ cfg.imm.maxPages) (ops : CurrentOps cfg) (s : Sh × (Tid → Loc)) (hr : Reachable cfg m0 s) :
+    ¬ Race cfg s ∧
+    (∀ t f w, nextAccess cfg t (s.2 t) = some (f, w) → (f = .pages ∨ f = .size) → s.1.mutex = some t) ∧
+    (∀ t f, nextAccess cfg t (s.2 t) = some (f, true) → f = .pages ∨ f = .size) := by
+  have wf := current_wf cfg m0 hs hmax h0 ops
+  have hro : ∀ t, cfg.isGrow t = false → NoSizeRead (cfg.prog t) = true := fun t ht => (ops.2 t ht).2
+  have hI := ginv_reach wf hr
+  exact ⟨no_race_of_ginv wf hro hI, fun t f w h hf => accessor_holds wf hro hI h hf,
+    fun t f h => (writer_holds wf hI h).2⟩
+
+/-- three grows (deltas 1, 2, 3), a `memory.size` (thread 3) and loads (all others) on a memory of 1 page, max 10 -/
+def exampleCfg : Cfg :=
+  { imm := { maxPages := 10 },
+    prog := fun t => if t < 3 then Gen.growSteps else if t = 3 then Gen.sizeSteps else accessSteps,
+    arg := fun t => if t < 3 then t + 1 else 0, isGrow := fun t => decide (t < 4) }
+
+/-- the hypotheses are satisfiable -/
+example : CurrentOps exampleCfg ∧ WF exampleCfg mem1 := by
+  have ops : CurrentOps exampleCfg := by
+    constructor
+    · intro t ht
+      have h4 : t < 4 := of_decide_eq_true ht
+      by_cases h3 : t < 3
+      · refine Or.inl ⟨if_pos h3, ?_⟩
+        show (if t < 3 then t + 1 else 0) < 4294967296
+        rw [if_pos h3]; exact Nat.lt_of_lt_of_le (Nat.succ_lt_succ h3) (by decide)
+      · have : t = 3 := Nat.le_antisymm (Nat.le_of_lt_succ h4) (Nat.le_of_not_lt h3)
+        subst this
+        exact Or.inr ⟨rfl, rfl⟩
+    · intro t ht
+      have h4 : ¬ t < 4 := of_decide_eq_false ht
+      have h3 : ¬ t < 3 := fun h => h4 (Nat.lt_succ_of_lt h)
+      have h3' : t ≠ 3 := fun h => h4 (h ▸ by decide)
+      show ReadOnly (if t < 3 then Gen.growSteps else if t = 3 then Gen.sizeSteps else accessSteps) = true ∧
+        NoSizeRead (if t < 3 then Gen.growSteps else if t = 3 then Gen.sizeSteps else accessSteps) = true
+      rw [if_neg h3, if_neg h3']
+      exact ⟨by decide, by decide⟩
+  exact ⟨ops, current_wf exampleCfg mem1 rfl (by decide) (by decide) ops⟩
 
 end W2c2Verif.Props.C18
